@@ -8,6 +8,7 @@ package main
 // exit, kill, clock) is simulated and a seeded scheduler decides every interleaving.
 
 import (
+	"bytes"
 	"fmt"
 	"io"
 	"net/http"
@@ -28,7 +29,7 @@ type c20Req struct {
 	Gap     time.Duration `json:"gap_ns"`
 	Script  string        `json:"script"` // instant sleep hang near-timeout panic
 	Service time.Duration `json:"service_ns"`
-	Abort   string        `json:"abort,omitempty"`          // "" before-send mid-request stall stall-body
+	Abort   string        `json:"abort,omitempty"`          // "" before-send mid-request stall stall-body stall-read
 	Upload  time.Duration `json:"slow_upload_ns,omitempty"` // body delivered this long after the headers
 	SentAt  time.Duration `json:"-"`
 	Resp    string        `json:"-"`
@@ -91,6 +92,17 @@ func (h *c20Handler) ServeHTTP(rw http.ResponseWriter, r *http.Request) {
 		case "panic":
 			h.w.Fault("request.handler-panic")
 			panic("handler panic (injected)")
+		case "big":
+			// a response several times the size of the socket buffers: the handler is parked in
+			// Write for as long as the client does not read
+			h.w.Fault("request.big-response")
+			rw.Header().Add("Content-Type", "text/plain")
+			rw.WriteHeader(200)
+			rw.Write(bytes.Repeat([]byte("大"), 100000))
+			rw.Write([]byte("served:" + token))
+			inv.End = h.w.Now()
+			inv.Finished = true
+			return
 		}
 	}
 	rw.Header().Add("Content-Type", "text/plain")
@@ -157,6 +169,8 @@ func runC20(t *zsim.Tape, cfg *hlib.Config) *hlib.Outcome {
 	enStall := t.Draw(4) == 3
 	// uploads: complete headers announcing a body that arrives late (within the timeout) or never
 	enUpload := t.Draw(4) == 3
+	// big responses, to clients that read them or that stop reading (and keep the connection)
+	enBig := t.Draw(4) == 3
 	// a client that stalls for ever pins its worker (the worker has no read deadline); the
 	// remaining capacity argument (max-procs minus stallers >= 1) only holds while no worker
 	// dies, so this fault is drawn only in runs without any fault that ends a worker
@@ -219,6 +233,14 @@ func runC20(t *zsim.Tape, cfg *hlib.Config) *hlib.Outcome {
 			if enStallClient && stallers < sc.MaxProcs-1 && t.Draw(8) == 7 {
 				r.Abort = "stall"
 				stallers++
+			}
+			if enBig && r.Abort == "" && r.Script == "instant" && t.Draw(3) == 2 {
+				r.Script = "big"
+				if t.Draw(2) == 1 && !enStallClient {
+					// the client stops reading after the first bytes: the request outlives --timeout
+					// in the middle of the response (a worker-ending fault, see stall-body)
+					r.Abort = "stall-read"
+				}
 			}
 			if enUpload && r.Abort == "" && t.Draw(4) == 3 {
 				if t.Draw(2) == 1 && !enStallClient {
@@ -302,7 +324,13 @@ func runC20(t *zsim.Tape, cfg *hlib.Config) *hlib.Outcome {
 					conn.Write([]byte(msg))
 				}
 				var resp []byte
-				buf := make([]byte, 512)
+				buf := make([]byte, 4096)
+				if r.Abort == "stall-read" {
+					w.Fault("client-stops-reading")
+					conn.Read(buf[:16])
+					r.Done = true // the connection stays open, nothing more is read
+					continue
+				}
 				for {
 					n, err := conn.Read(buf)
 					resp = append(resp, buf[:n]...)
@@ -571,8 +599,12 @@ func runC20(t *zsim.Tape, cfg *hlib.Config) *hlib.Outcome {
 	// I4 (uploads): complete headers, a body that never arrives, the connection left open — the
 	// request outlives the timeout, so the worker that accepted it must be gone shortly after
 	for _, r := range reqs {
-		if r.Abort != "stall-body" {
+		if r.Abort != "stall-body" && r.Abort != "stall-read" {
 			continue
+		}
+		what := "headers complete, body never delivered"
+		if r.Abort == "stall-read" {
+			what = "a response larger than the socket buffers to a client that stopped reading"
 		}
 		for _, e := range k.Events {
 			if e.Kind != "accept" || e.Info != fmt.Sprintf("conn %d", r.ConnID) {
@@ -580,7 +612,7 @@ func runC20(t *zsim.Tape, cfg *hlib.Config) *hlib.Outcome {
 			}
 			wp := k.Proc(e.Pid)
 			if wp != nil && !wp.Exited && w.Now() > e.At+timeout+5*time.Second {
-				return fail("I4:stalled-upload-worker-not-terminated", fmt.Sprintf("pid %d accepted request %s (headers complete, body never delivered) at %s, timeout %s, and is still alive at %s", e.Pid, r.Token, e.At, timeout, w.Now()))
+				return fail("I4:stalled-upload-worker-not-terminated", fmt.Sprintf("pid %d accepted request %s (%s) at %s, timeout %s, and is still alive at %s", e.Pid, r.Token, what, e.At, timeout, w.Now()))
 			}
 			if wp != nil && wp.Exited && !wp.Killed && wp.ExitAt > e.At+timeout+5*time.Second {
 				return fail("I4:stalled-upload-worker-terminated-late", fmt.Sprintf("pid %d accepted request %s at %s (timeout %s) but exited only at %s", e.Pid, r.Token, e.At, timeout, wp.ExitAt))
